@@ -79,6 +79,15 @@ CLAIMED = {
  "C25": dict(tech="property-based testing (rapidcheck, in-process): round-trip oracle writer -> reader on the real range coder, plus exhaustive short sequences", engine="rapidcheck-harness",
              text="Generated symbol/bool/literal sequences with valid CDFs (incl. extreme) are written with the encoder's coder and read back with the decoder's reader; values, adapted CDFs and the tell law are compared.",
              note="Reader gets 16 zero bytes of look-ahead after the announced size.", ref="4 C25"),
+ "C16": dict(tech="fault injection by enumeration: fail exactly the k-th allocation / thread / mutex / semaphore creation (linker --wrap shims) in each API phase; oracle = error code, ASan, LSan, watchdog", engine="fault-injection", level="fault_enumeration",
+             text="Clean run counts creations per phase; each trial fails one of them in a fresh process. Thorough enumerates every k (exhaustive), quick takes phase boundaries, a grid and a seeded sample.",
+             note="Only creations on the API-calling thread are failed; smallest accepted configuration (plus variants in thorough).", ref="4 C16"),
+ "C17": dict(tech="property-based testing (Hypothesis): differential oracle, each concurrent instance vs its solo run in a fresh process",
+             text="Generated sets of 2-3 encoder/decoder instances with differing global-affecting settings and start offsets run in one process; each instance's output must equal its solo output; crash/hang detection.",
+             note="Race freedom is observed only through outputs/ASan; instances nondeterministic on their own are not generated.", ref="4 C17"),
+ "C20": dict(tech="property-based testing (Hypothesis): header predicates from the independent parser + block-level usage counters (hook H4), with an ON run of the same case for non-vacuity",
+             text="Generated tool switches forced off (and on) x content chosen to attract the tool x tile requests; no frame or block may use a disabled tool, and the signalled tile layout must equal the request clamped by the spec limits.",
+             note="Block-level usage is read from the instrumented SVT decoder parse (tied to the references by C08).", ref="4 C20"),
 }
 
 NOT_APPLICABLE = {
@@ -124,6 +133,8 @@ def main():
                       kind_free_text=H + "; failing case re-executed 3x outside the generator, shrunk, written to replays/<id>/"),
                  dict(name="rapidcheck-harness", path="workers/", serves_properties=[c["property_id"] for c in checks if c["engine"] == "rapidcheck-harness"],
                       kind_free_text="in-process rapidcheck / exhaustive harnesses linked against static archives of the real objects (ASan)"),
+                 dict(name="fault-injection", path="workers/faultinj", serves_properties=[c["property_id"] for c in checks if c["engine"] == "fault-injection"],
+                      kind_free_text="k-th creation failure through linker --wrap shims, one fresh process per trial"),
                  dict(name="libfuzzer", path="workers/fuzz", serves_properties=[c["property_id"] for c in checks if c["engine"] == "libfuzzer"],
                       kind_free_text="coverage-guided libFuzzer targets (ASan + restricted UBSan) with OBU-aware structure decode")],
         checks=checks,
